@@ -16,7 +16,7 @@ import gen
 import vlib
 
 HOSTILE_LITS = ['"a\\"b"', '"`"', '"\\\\"', '"é€"', '"//"', '"/*"', '"*/"', '"%d%s%%"', '"{{.}}"', '"a b"', "`x\"y`", '"\\n"', '"\'"',
-                "`a\nb`", "`a\nb\nc\n`", "`\r\n\r\n`", '"a\x00b"', '"\ufeffx"', '"}}"', '"\\x41"', '"$0"', '"<<"', '">>"', '"\t"', "`\\`", '"𝒳"']
+                "`a\nb`", "`a\nb\nc\n`", "`\r\n\r\n`", '"a\x00b"', '"\ufeffx"', '"}}"', '"\\x41"', '"$0"', '"<<"', '">>"', '"\t"', "`\\`", '"𝒳"', '"=\\""', '"\\""', "`=\\\"`"]
 HOSTILE_IDS = ["type", "func", "package", "import", "nil", "true", "int", "string", "token", "lexer", "parser", "x_1", "aB9"]
 ACTIONS = ['<< X[0], nil >>', '<< "`", nil >>', '<< "*/ %d {{", nil >>', "<< '\\'', nil >>", '<< []byte("a\\"b"), nil >>',
            '<< map[string]int{"a": 1}, nil >>', '<< func() interface{} { return 1 }(), nil >>', '<< nil, nil >>', '<< $0, nil >>']
